@@ -105,6 +105,26 @@ func runC09(sc *SessScript) *sim.Outcome {
 					deliverAll()
 				}
 			}
+		case "badmac":
+			// a copy of the message in flight with a damaged MAC reaches the receiver before the genuine one
+			dir := op.W & 1
+			if len(s.W.Q[dir]) == 0 {
+				s.Send(dir, s.Text(dir, op.L%40, op.F))
+			}
+			if q := s.W.Q[dir]; len(q) > 0 {
+				if raw, ok := ref.Dearmor(q[0].Data); ok && len(raw) > 40 {
+					if h, err := ref.ParseHeader(raw); err == nil && h.Type == ref.TypeData {
+						if d, err := ref.ParseData(raw[h.Len:]); err == nil {
+							f := d.Fields["mac"]
+							raw[h.Len+f[0]+op.I%20] ^= 0x04
+							before := len(s.W.Q[1-dir])
+							s.W.Receive(1-dir, ref.Armor(raw))
+							s.W.Q[1-dir] = s.W.Q[1-dir][:before]
+							o.Class("damaged-copy-first")
+						}
+					}
+				}
+			}
 		case "cross":
 			// both sides send before either reads (messages cross on the wire), op.I+1 times
 			for i := 0; i <= op.I%3; i++ {
@@ -208,7 +228,7 @@ func init() { reg("C09disclose", runC09) }
 
 func TestProp_C09_Disclosure(t *testing.T) {
 	defer sim.MarkCompleted("C09disclose", false)
-	kinds := []string{"pp", "pp", "pp", "cross", "cross", "cross", "burst", "burst", "send", "send", "dl", "dl", "dl", "refresh", "smp", "ans", "xk", "age", "flush"}
+	kinds := []string{"pp", "pp", "pp", "badmac", "badmac", "cross", "cross", "cross", "burst", "burst", "send", "send", "dl", "dl", "dl", "refresh", "smp", "ans", "xk", "age", "flush"}
 	rapid.Check(t, func(rt *rapid.T) {
 		sc := &SessScript{Cfg: genSessCfg(rt)}
 		n := rapid.IntRange(2, 30).Draw(rt, "nops")
